@@ -6,6 +6,10 @@ ALL = ["C%02d" % i for i in range(1, 21)]
 
 # property -> (level, design_ref, engine, technique, level text, level note)
 CLAIMED = {
+ "C08": ("model_checking", "DESIGN.md §2 C08", "vp",
+   "bounded-exhaustive enumeration of registration sets and of actions taken at every callback invocation on the real event loop (virtual clock, real epoll/eventfd/signals) against a registration model",
+   "Up to 3 registrations (job, zero-delay timer, ready eventfd, SIGUSR1/SIGUSR2 handler, two priorities) are made before qb_loop_run; at every callback invocation the explorer picks one action out of: nothing, delete self, re-add self, add a job, add a 3 ms timer, use a stale timer handle, raise a handled signal, qb_loop_stop, return -1, and for every other registration delete it (also while it is queued for dispatch), toggle its readiness, poll_mod it, or close the descriptor and register a new one with the reused number; at most 2 (thorough 3) non-trivial actions per run. Oracle: jobs and timers exactly once, nothing after a successful delete, FIFO jobs per priority, descriptors called while ready and registered and never after delete/-1, signal callbacks once per delivery and from loop context, stale handles refused, stop makes run return; ASan for freed loop items.",
+   "Bounds as stated; signal delivery by raise() is synchronous; 14-iteration horizon."),
  "C09": ("model_checking", "DESIGN.md §2 C09", "vp",
    "exhaustive enumeration of duration tuples and of timer-heap add/delete/advance histories on the real event loop driven by a virtual clock",
    "The real qb_loop runs with clock_gettime/clock_getres/epoll_wait wrapped: the virtual clock advances by exactly the timeout the loop passes to epoll_wait, so sleeping past an expiry or blocking without a timeout is observed directly. All tuples of up to 3 timers with durations from 0 to 2^64-1 ns (incl. the 2^31 and 2^32 ms boundaries) x priorities, with and without a queued job, are run for up to 12000 iterations of virtual time; all histories of up to 7 (thorough 9) operations over add(10/20/30 ms), delete(k-th pending) and run-for-10-ms exercise the heap. Oracle: never early, at most slack late, expiry order within a priority, every poll timeout finite and not beyond the earliest expiry + slack, deleted timers never fire, is_running/time_remaining consistent.",
